@@ -76,7 +76,7 @@ def trees() -> List[Dict[str, Any]]:
     x = Cfg("X", "bool", prompt="x")
     x.selects.append(("Y", None))
     kids = [
-        Choice(name=None, prompt="c", children=[Cfg("C1", "bool", prompt="c1"), Cfg("C2", "bool", prompt="c2")]),
+        Choice(name=None, prompt="c", children=[Cfg("C1", "bool", prompt="c1"), Cfg("C2", "bool", prompt="c2"), Cfg("C3", "bool", prompt="c3")]),
         x,
         Cfg("Y", "bool", prompt="y"),
         Cfg("H", "hex", prompt="h", depends=[S("C2")], defaults=[(L("0x10"), None)]),
@@ -87,7 +87,7 @@ def trees() -> List[Dict[str, Any]]:
             prog=Program(children=kids),
             typed={"hex": ["0x1f"]},
             alt=[("C2", "y"), ("H", "0x2a"), ("X", "y")],
-            alt2=[("Y", "y")],
+            alt2=[("C3", "y")],  # the file loaded with [O] differs from the defaults in nothing but the choice selection (no option depends on C3)
             dup="CONFIG_C2=y\n",
             dup_same="CONFIG_C1=y\n",
             partial="CONFIG_C2=y\n",
